@@ -26,7 +26,7 @@ for p in props:
         na.append({"property_id": pid, "reason": profiles.NOT_YET.get(pid, "check not built yet (work in progress)")})
 m = {
     "version": 1,
-    "setup_cmd": "cd /verif/harness && CARGO_NET_OFFLINE=true cargo build --release --offline",
+    "setup_cmd": "bin/setup",
     "hooks": {
         "guard": "verif-hooks",
         "enable": "cargo feature `verif-hooks` of lean_string; the harness crate (/verif/harness) depends on /repo with features = [\"verif-hooks\", ...]",
